@@ -79,7 +79,7 @@ def abstract_tokens(lexres):
 # model expressions on the Python side: nested tuples
 #   ('atom', word) ('name', s) ('num', negs, tag, text) ('unop', op, e) ('binop', leanname, l, r)
 #   ('isop', neg, l, ty) ('ifelse', py, c, a, b) ('cast', ty, e) ('detached', e) ('call', f, [..])
-#   ('tuple', [..]) ('array', [..]) ('set', [..]) ('index', a, [..])
+#   ('tuple', [..]) ('array', [..]) ('set', [..]) ('index', a, [..]) ('path', base, [step names, >= 1])
 def sexp(e) -> str:
     k = e[0]
     if k == 'atom':
@@ -106,6 +106,8 @@ def sexp(e) -> str:
         return f'( {k}' + ''.join(' ' + sexp(a) for a in e[1]) + ' )'
     if k == 'index':
         return '( index ' + sexp(e[1]) + ''.join(' ' + sexp(a) for a in e[2]) + ' )'
+    if k == 'path':
+        return '( path ' + sexp(e[1]) + ''.join(' ' + hx(a) for a in e[2]) + ' )'
     raise ValueError(k)
 
 
@@ -157,6 +159,12 @@ def to_qlast(e, T):
         return ql.Set(elements=[to_qlast(a, T) for a in e[1]])
     if k == 'index':
         return ql.Indirection(arg=to_qlast(e[1], T), indirection=[ql.Index(index=to_qlast(a, T)) for a in e[2]])
+    if k == 'path':
+        from edb.schema import pointers as s_pointers
+        base = to_qlast(e[1], T)
+        # what `ensure_path` + `reduce_Expr_PathStep` build: an ObjectRef base IS the first step of the Path
+        steps = list(base.steps) if isinstance(base, ql.Path) else [base]
+        return ql.Path(steps=steps + [ql.Ptr(name=s, direction=s_pointers.PointerDirection.Outbound) for s in e[2]])
     raise ValueError(k)
 
 
@@ -187,6 +195,22 @@ def from_qlast(n, T):
                 # the model's token vocabulary has it as a keyword only
                 raise Unmodelled('unreserved keyword used as a name')
             return ('name', n.steps[0].name)
+        if len(n.steps) > 1 and not n.partial:
+            names = []
+            for st in n.steps[1:]:
+                if not (isinstance(st, ql.Ptr) and st.type is None and str(st.direction or '>') == '>'
+                        and isinstance(st.name, str) and st.name and not st.name[0].isdigit()
+                        and st.name.upper() != 'THEN'):
+                    raise Unmodelled('Path step')         # @prop, .<back, [IS T], .0, keyword-named steps
+            names = [st.name for st in n.steps[1:]]
+            b = n.steps[0]
+            if isinstance(b, ql.ObjectRef):
+                base = from_qlast(ql.Path(steps=[b]), T)
+            elif isinstance(b, ql.Path):
+                raise Unmodelled('Path base is a Path')   # never built by the parser (ensure_path flattens)
+            else:
+                base = from_qlast(b, T)
+            return ('path', base, names)
         raise Unmodelled('Path')
     if isinstance(n, ql.UnaryOp):
         if n.op not in UOPS_INV:
@@ -270,8 +294,14 @@ def gen_expr(rng, depth, T, safe_plus=True):
         return ('detached', sub())
     if k < 0.9:
         return ('call', rng.choice(FUNCS), [sub() for _ in range(rng.randint(0, 3))])
-    if k < 0.96:
+    if k < 0.94:
         return (rng.choice(['tuple', 'array', 'set']), [sub() for _ in range(rng.randint(0, 3))])
+    if k < 0.97:
+        b = sub()
+        steps = [rng.choice(NAMES) for _ in range(rng.choice([1, 1, 2, 3]))]
+        if b[0] == 'path':
+            return ('path', b[1], b[2] + steps)              # parser normal form (ensure_path)
+        return ('path', b, steps)
     a = sub()
     if a[0] == 'index':
         a = ('name', 'q')
@@ -321,10 +351,13 @@ def gen_chain(rng, T, n):
             chain(d - 1, rng.randint(1, 2))
             out.append('ELSE')
             chain(d - 1, rng.randint(1, 2))
-        while rng.random() < 0.12:
-            out.append('[')
-            chain(d - 1, 1)
-            out.append(']')
+        while rng.random() < 0.2:
+            if rng.random() < 0.55:
+                out.append('[')
+                chain(d - 1, 1)
+                out.append(']')
+            else:
+                out.extend(['.', rng.choice(NAMES)])
 
     def chain(d, k):
         operand(d)
@@ -387,6 +420,30 @@ def run_tie(ctx, replay=False):
         exprs.append(('binop', a, ('detached', x), y))
         exprs.append(('isop', False, ('binop', a, x, y), 'T'))
         exprs.append(('ifelse', True, ('binop', a, x, y), ('binop', a, y, z), ('binop', a, z, x)))
+    # pointer steps: every kind of base (bare / parenthesised by visit_Path), under every prefix operator,
+    # on either side of every binary operator, with / under an index
+    pxy, pxyz = ('path', x, ['y']), ('path', x, ['y', 'z'])
+    one = ('num', 0, 'i', '1')
+    bases = [x, ('set', [one]), ('set', []), ('tuple', [one, one]), ('tuple', [one]), ('tuple', []),
+             ('array', [one]), ('call', 'f', [one]), ('call', 'f', []), one, ('num', 1, 'i', '1'),
+             ('index', x, [one]), ('index', pxy, [one]), ('detached', x), ('cast', 'T', x),
+             ('ifelse', True, x, y, z), ('ifelse', False, x, y, z), ('isop', False, x, 'T'),
+             ('binop', names[0], x, y)] + ATOMS + [('unop', u, x) for u in UOPS]
+    for b in bases:
+        exprs.append(('path', b, ['y']))
+        exprs.append(('path', b, ['y', 'a', 'b']))
+        exprs.append(('index', ('path', b, ['y']), [one]))
+    for pth in (pxy, pxyz):
+        for u in UOPS:
+            exprs.append(('unop', u, pth))
+        exprs.append(('detached', pth))
+        exprs.append(('cast', 'T', pth))
+        exprs.append(('isop', True, pth, 'T'))
+        exprs.append(('index', x, [pth, pth]))
+        for a in names:
+            exprs.append(('binop', a, pth, y))
+            exprs.append(('binop', a, y, pth))
+            exprs.append(('path', ('binop', a, x, y), ['z']))
     for i in range(ctx.budget(900, 40000)):
         exprs.append(gen_expr(rng, rng.randint(1, 4), T))
     if replay:
@@ -447,6 +504,15 @@ def run_tie(ctx, replay=False):
         chains.append(f'{p} x [ 1 ]')
         for p2 in pre:
             chains.append(f'{p} {p2} x')
+    for p in pre:
+        chains += [f'{p} x . y', f'{p} x . y . z', f'{p} x [ 1 ] . y', f'{p} x . y [ 1 ]', f'{p} ( x . y )',
+                   f'{p} x . y IS T', f'{p} x . y IF c ELSE z . w']
+    chains += ['x . y', '( x ) . y', '( x . y ) . z', '{ 1 } . y', '{ } . y', '( 1 , 2 ) . y', '( ) . y', '$p . y',
+               "'s' . y", 'true . y', 'f ( 1 ) . y', '[ 1 ] . y', '( 1 ) . y', 'x . y ( 1 )', 'x . f ( 1 )',
+               'x . . y', 'x .', '. y', 'x . y .', 'x [ 1 ] . y [ 2 ] . z', 'x . y . z [ 1 ] . w', 'x . 1',
+               'x . ( y )', 'x IF c . d ELSE y . z', 'IF c . d THEN x . y ELSE z . w', 'x . y , z']
+    for a in ops:
+        chains += [f'x {a} y . z', f'x . y {a} z', f'x . y {a} z . w', f'x {a} y [ 1 ] . z', f'( x {a} y ) . z']
     for a in ops:
         chains += [f'x {a} y IS T', f'x IS T {a} y', f'x IS NOT T {a} y', f'x {a} y IF c ELSE z', f'x IF c ELSE y {a} z',
                    f'IF c THEN x ELSE y {a} z', f'x {a} y [ 1 ]', f'x [ 1 ] {a} y', f'x IF c {a} d ELSE y']
@@ -491,6 +557,7 @@ def run_tie(ctx, replay=False):
         'C01_roundtrip_counterexample_neg_pow': ('select (-1) ^ x', 'ast-diff'),
         'C01_roundtrip_counterexample_not_eq': ('select (not a) = b', 'ast-diff'),
         'C01_roundtrip_counterexample_detached_index': ('select detached (x[1])', 'ast-diff'),
+        'C01_roundtrip_counterexample_detached_path': ('select detached (x.y)', 'ast-diff'),
     }
     wres = {}
     for name, (text, want) in witnesses.items():
